@@ -29,7 +29,7 @@ ASSUMPTIONS = [
     "result coefficient dtype is compared by kind only (C12 owns exact dtypes)",
 ]
 
-SKIP = {"array_repr", "array_str", "apply_along_axis", "apply_over_axes", "power", "result_type", "common_type"}
+SKIP = {"array_repr", "array_str"}
 OG = ConstOperands()
 FLOATY = {"mean", "true_divide", "det", "isclose", "allclose"}
 
@@ -93,8 +93,11 @@ def same(got, exp, fn, numpoly, path="result"):
             if r:
                 return r
         return None
-    if isinstance(exp, numpy.dtype):
-        return None if got == exp else ("dtype", "%s: %s vs %s" % (path, got, exp))
+    if isinstance(exp, (numpy.dtype, type)):
+        try:
+            return None if numpy.dtype(got) == numpy.dtype(exp) else ("dtype", "%s: %s vs %s" % (path, got, exp))
+        except TypeError:
+            return "dtype", "%s: %r vs %r" % (path, got, exp)
     rec = RECIPES[fn]
     exp_arr = numpy.asarray(exp)
     if isinstance(got, numpoly.ndpoly):
@@ -146,6 +149,11 @@ def check_case(case, ctx):
     kw = resolve(case["kw"], "live")
     rargs = resolve(case["args"], "raw")
     rkw = resolve(case["kw"], "raw")
+    if fn in ("apply_along_axis", "apply_over_axes"):
+        # the callable is spelled per module: numpy's on the raw arrays, numpoly's on the polynomials
+        from ..catalogue import _callable
+        name = case["args"][0]["$fn"]
+        rargs = [_callable(name, "raw")] + list(rargs[1:])
     npf = numpy.linalg.det if fn == "det" else getattr(numpy, rec.np_name)
     try:
         with numpy.errstate(all="ignore"):
